@@ -12,7 +12,7 @@ E1 (bounded exhaustive enumeration against mc/ref_c10.py, the definitions on poi
            operation is called a second time after the first result was emptied by the caller.
   inflations  block-structured permutations beyond the exhaustive range: every inflation of 01, 10
            and the simples of length 4, 5 with at most two non-trivial components from a fixed
-           alphabet (perms <= 3, simples 4..6, monotone 4..6), total length <= 11 (quick) / 13;
+           alphabet (perms <= 3, simples 4..6, monotone 4..6), total length <= 10 (quick) / 13;
            the window-scanning observers (decomp, blocks, mono groups) against brute force.
   long     (thorough) every permutation of length 9, blocks group.
   scale    structured permutations (identity, reverse, k*i mod n, rotations, one transposition,
@@ -21,6 +21,12 @@ E1 (bounded exhaustive enumeration against mc/ref_c10.py, the definitions on poi
            511..513): every unary observer with polynomial references; on the core shapes every
            operation that takes an index / value / amount, arguments within 1 of 0, 8, 32, 256, 257,
            n-1, n, n+1 handed over as freshly made ints, plus defaults.
+  receivers  FORMS of the receiver: every perm of S<=5 (6) obtained along 11 public routes (list,
+           iterator, Perm(Perm), the memoised to_standard object, from_string, one_based, validated,
+           results of inverse / compose / insert-remove), all unary observers.
+  abort    an exception raised at every 'call' event inside 12 structural operations and inflate
+           (one per execution), then all scan observers read back on the same object, a new equal
+           object and the memoised to_standard object.
   duality  every q: q is in coveredby(c) for each child c of q and in children(r) for each r in
            coveredby(q) (implementation against itself).
   insert   every (p, index, value) with 0 <= index <= n+1, 0 <= value <= n, defaults included;
@@ -163,6 +169,29 @@ def _empty_out(res):
         res.clear()
 
 
+def _scramble(res):
+    """Another one: reverse it and append a sentinel, at every nesting level."""
+    if isinstance(res, list):
+        for inner in res:
+            if isinstance(inner, list):
+                inner.reverse()
+                inner.append(-7)
+        res.reverse()
+        res.append([-7])
+
+
+DAMAGES = (_empty_out, _scramble)
+FRESH_ALIASES = {"block_decomposition": ("all_intervals", "decomposition"),
+                 "children": ("shrink_by_one",)}
+FRESH_DEPENDENTS = {
+    "block_decomposition": ("block_decomposition_as_pattern", "maximum_block", "simple_location",
+                            "is_simple", "is_strongly_simple"),
+    "children": ("is_strongly_simple",),
+    "sum_decomposition": ("is_sum_decomposable", "sum_decomposition:parts_indecomposable"),
+    "skew_decomposition": ("is_skew_decomposable", "skew_decomposition:parts_indecomposable"),
+}
+
+
 FRESH_MAX = 6     # the second-call observations are made for permutations up to this length
 
 
@@ -179,16 +208,18 @@ AS_PATTERN_MAX = 3000    # long perms: block_decomposition_as_pattern only below
 STRONG_MAX = 40          # long SIMPLE perms: is_strongly_simple only up to this length
 
 
-def unary_observations(Perm, p, cover, full=True, groups=None, big=None):
+def unary_observations(Perm, p, cover, full=True, groups=None, big=None, receiver=None):
     """[(sub, op, thunk, expected)] for one permutation p (a tuple).  cover: set of the perms of
     length n+1 covering p, or None when the table is not available for this length.
     full=False leaves out the removal family (n ... 3n calls, explored by `insert` as well).
     big: None, or {"positions": [...]} for a long permutation: polynomial references
     (X.intervals_minmax, X.monotone_runs_linear), removal family only at the given positions /
-    values, the two quadratic-per-block observers only within AS_PATTERN_MAX / STRONG_MAX."""
+    values, the two quadratic-per-block observers only within AS_PATTERN_MAX / STRONG_MAX.
+    receiver: the Perm object to call the methods on (default: a new Perm(p))."""
     C = Conv(Perm)
     n = len(p)
-    P = Perm(p)
+    P = Perm(p) if receiver is None else receiver
+    assert tuple(P) == tuple(p)
     out = []
     if groups is None:
         add = lambda sub, op, thunk, exp: out.append((sub, op, thunk, exp))  # noqa
@@ -252,6 +283,9 @@ def unary_observations(Perm, p, cover, full=True, groups=None, big=None):
             add("mono", "%s(%s)" % (name, ones),
                 lambda name=name, ones=ones: [tuple(b) for b in getattr(P, name)(ones)], exp)
         add("mono", name + "()", lambda name=name: [tuple(b) for b in getattr(P, name)()], runs)
+        add("mono", name + "(with_ones=True)",
+            lambda name=name: [tuple(b) for b in getattr(P, name)(with_ones=True)],
+            X.with_singletons(n, runs))
     add("mono", "contract_inc_bonds", lambda: C.p(P.contract_inc_bonds()), X.contract(p, (1,)))
     add("mono", "contract_dec_bonds", lambda: C.p(P.contract_dec_bonds()), X.contract(p, (-1,)))
     add("mono", "contract_bonds", lambda: C.p(P.contract_bonds()), X.contract(p, (1, -1)))
@@ -268,32 +302,65 @@ def unary_observations(Perm, p, cover, full=True, groups=None, big=None):
         add("remove", "remove(%d)" % i, lambda i=i: C.p(P.remove(fresh_int(i))), X.remove_at(p, i))
         add("remove", "remove_element(%d)" % i, lambda i=i: C.p(P.remove_element(fresh_int(i))),
             X.remove_value(p, i))
+        add("remove", "remove(index=%d)" % i, lambda i=i: C.p(P.remove(index=fresh_int(i))),
+            X.remove_at(p, i))
+        add("remove", "remove_element(selected=%d)" % i,
+            lambda i=i: C.p(P.remove_element(selected=fresh_int(i))), X.remove_value(p, i))
         add("remove", "remove(%d).insert(%d,%d)" % (i, i, p[i]),
             lambda i=i: C.p(P.remove(fresh_int(i)).insert(fresh_int(i), fresh_int(p[i]))), p)
     top_removed = X.remove_value(p, n - 1) if n else ()
     add("remove", "remove()", lambda: C.p(P.remove()), top_removed)
     add("remove", "remove_element()", lambda: C.p(P.remove_element()), top_removed)
 
-    # ---- results belong to the caller: a second call is not affected by what was done to the
-    #      first result, neither on the same object nor on an equal one ---------------------
+    # ---- results belong to the caller: after the returned container was damaged in place (every
+    #      nesting level; emptied, then reversed with a sentinel appended), the same question and
+    #      the observers that could share a memo with it are asked again - on the same object, on a
+    #      new equal object and through the aliases - and must still give the reference answer ---
     expected = {o: e for (_, o, _, e) in out}
+    by_op = {o: (t, e) for (_, o, t, e) in out}
     for op in LIST_OPS:
         if op not in expected or n > FRESH_MAX:
             continue
 
         def again(op=op):
             norm = LIST_NORM[op]
-            _empty_out(getattr(P, op)())
-            return [norm(C, P), norm(C, Perm(p))]
-        add("fresh", op + ":second_call", again, [expected[op]] * 2)
+            res = []
+            for damage in DAMAGES:
+                damage(getattr(P, op)())
+                P2 = Perm(p)
+                res.append([norm(C, P), norm(C, P2)])
+                for alias in FRESH_ALIASES.get(op, ()):
+                    a = getattr(P, alias)()
+                    res.append([sorted(b) for b in a] if op == "block_decomposition"
+                               else C.pset(a))
+                    damage(a)
+                damage(getattr(P2, op)())
+                res.append(norm(C, Perm(p)))
+            return res
+        per_damage = [[expected[op]] * 2] + [expected[op]] * len(FRESH_ALIASES.get(op, ())) + \
+            [expected[op]]
+        add("fresh", op + ":second_call", again, per_damage * len(DAMAGES))
+        for dep in FRESH_DEPENDENTS.get(op, ()):
+            if dep not in by_op:
+                continue
+            thunk, exp = by_op[dep]
+
+            def dependent(op=op, thunk=thunk):
+                DAMAGES[1](getattr(P, op)())
+                DAMAGES[0](getattr(P, op)())
+                return thunk()
+            add("fresh", "%s after %s was damaged" % (dep, op), dependent, exp)
     return out
 
 
-def check_unary(part, Perm, p, cover, after=None, full=True, groups=None, big=None, case0=None):
+def check_unary(part, Perm, p, cover, after=None, full=True, groups=None, big=None, case0=None,
+                receiver=None, sub_as=None):
     if case0 is None:
         case0 = {"perm": p, "after": after}
     bad = 0
-    obs = unary_observations(Perm, p, cover, full, groups, big)
+    obs = unary_observations(Perm, p, cover, full, groups, big, receiver)
+    if sub_as is not None:
+        obs = [(sub_as, op, thunk, exp) for (_, op, thunk, exp) in obs]
     for sub, op, thunk, exp in obs:
         case = dict(case0, op=op)
         if not observe(part, sub, case, thunk, exp):
@@ -547,7 +614,7 @@ def check_scale(part, Perm, desc, core):
             comps = [None] * n
             comps[j] = a
             ob("inflate", "inflate(None.. except [%d]=%r)" % (j, a),
-               lambda: C.p(P.inflate([None if x is None else Perm(x) for x in comps])),
+               lambda: C.p(P.inflate(iter([None if x is None else Perm(x) for x in comps]))),
                X.inflate(p, comps))
     ob("inflate", "10.inflate([p, p])", lambda: C.p(Perm((1, 0)).inflate([P, P])),
        X.inflate((1, 0), [p, p]))
@@ -570,6 +637,300 @@ def shard_scale(shard):
                      "remove_element(257)[:8]": X.remove_value(p, 257)[:8],
                      "number_of_intervals": sum(len(v) for v in X.intervals_minmax(p).values())},
                     cap=1)
+    return part
+
+
+# --------------------------------------------------------------------------------------------
+# FORMS of the receiver: the same permutation obtained along every public route
+# --------------------------------------------------------------------------------------------
+
+RECEIVER_FORMS = ("Perm(list)", "Perm(iterator)", "Perm(Perm)", "Perm.to_standard(2v+1)",
+                  "Perm.to_standard(same key again)", "Perm.from_string", "Perm.one_based",
+                  "Perm.from_iterable_validated", "inverse().inverse()", "identity.compose(p)",
+                  "insert().remove()")
+
+
+def make_receiver(form, Perm, p):
+    n = len(p)
+    if form == "Perm(list)":
+        return Perm(list(p))
+    if form == "Perm(iterator)":
+        return Perm(v for v in p)
+    if form == "Perm(Perm)":
+        return Perm(Perm(p))
+    if form.startswith("Perm.to_standard"):        # a memoised object shared by all callers
+        return Perm.to_standard([2 * v + 1 for v in p])
+    if form == "Perm.from_string":
+        return Perm.from_string("".join(str(v) for v in p))
+    if form == "Perm.one_based":
+        return Perm.one_based([v + 1 for v in p])
+    if form == "Perm.from_iterable_validated":
+        return Perm.from_iterable_validated(list(p))
+    if form == "inverse().inverse()":
+        return Perm(p).inverse().inverse()
+    if form == "identity.compose(p)":
+        return Perm.identity(n).compose(Perm(p))
+    if form == "insert().remove()":
+        return Perm(p).insert().remove()
+    raise ValueError(form)
+
+
+def check_receivers(part, Perm, p):
+    for form in RECEIVER_FORMS:
+        case0 = {"perm": p, "receiver": form}
+        try:
+            recv = make_receiver(form, Perm, p)
+            if not isinstance(recv, Perm) or tuple(recv) != tuple(p):
+                raise ValueError("route gives %r" % (recv,))
+        except Exception as exc:  # noqa
+            part.violation("forms", dict(case0, op="build"), {"exception": repr(exc)})
+            continue
+        before = part.counters.get("unary_observations", 0) if hasattr(part, "counters") else 0
+        check_unary(part, Perm, p, None, case0=case0, receiver=recv)
+        if hasattr(part, "counters"):
+            k = part.counters.get("unary_observations", 0) - before
+            part.add(k, k if unary_nontrivial(p) else 0)
+
+
+def shard_receivers(shard):
+    n, lo, hi = shard
+    Perm = _P()
+    part = Partial()
+    for p in level_slice(n, lo, hi):
+        check_receivers(part, Perm, p)
+    return part
+
+
+# --------------------------------------------------------------------------------------------
+# ABORT: a BaseException raised at the k-th call event inside an operation (every k), then read
+# back on the same object, on a new equal object and on the memoised to_standard object
+# --------------------------------------------------------------------------------------------
+
+class _Abort(BaseException):
+    pass
+
+
+def _run_with_abort(fn, k, root):
+    """Run fn(); raise _Abort at the k-th 'call' event of a frame whose code lives under root
+    (k=None: never).  Returns (finished?, number of such events seen)."""
+    import sys
+    seen = [0]
+
+    def tracer(frame, event, arg):
+        if event == "call" and frame.f_code.co_filename.startswith(root):
+            seen[0] += 1
+            if seen[0] == k:
+                sys.settrace(None)
+                raise _Abort()
+        return None
+
+    sys.settrace(tracer)
+    try:
+        fn()
+        return True, seen[0]
+    except _Abort:
+        return False, seen[0]
+    finally:
+        sys.settrace(None)
+
+
+ABORT_OPS = {
+    "block_decomposition": lambda P: P.block_decomposition(),
+    "block_decomposition_as_pattern": lambda P: P.block_decomposition_as_pattern(),
+    "maximum_block": lambda P: P.maximum_block(),
+    "is_simple": lambda P: P.is_simple(),
+    "is_strongly_simple": lambda P: P.is_strongly_simple(),
+    "sum_decomposition": lambda P: P.sum_decomposition(),
+    "skew_decomposition": lambda P: P.skew_decomposition(),
+    "is_sum_decomposable": lambda P: P.is_sum_decomposable(),
+    "monotone_block_decomposition(True)": lambda P: list(P.monotone_block_decomposition(True)),
+    "contract_bonds": lambda P: P.contract_bonds(),
+    "children": lambda P: P.children(),
+    "coveredby": lambda P: P.coveredby(),
+}
+RB_GROUPS = ("decomp", "blocks", "mono", "children")
+
+
+def _abort_env():
+    import os
+    import signal
+    import sys
+    from ..core import REPO
+    root = os.path.join(os.path.abspath(REPO), "permuta") + os.sep
+
+    def on_alarm(signum, frame):
+        raise TimeoutError("read-back did not finish within 20 s")
+    old = signal.signal(signal.SIGALRM, on_alarm)
+    old_hook = sys.unraisablehook
+    sys.unraisablehook = lambda unraisable: None
+
+    def restore():
+        signal.alarm(0)
+        signal.signal(signal.SIGALRM, old)
+        sys.unraisablehook = old_hook
+    return root, signal, restore
+
+
+class Pristine:
+    """Everything the code under test could keep between calls outside the objects handed to it:
+    the bindings and the mutable containers at module level and on the classes of the modules
+    named below, lru_caches, mutable default arguments.  Taken before any operation has run
+    (in the parent, before forking); restore() puts it back IN PLACE, so every injection starts
+    from the same state whatever the previous one left behind."""
+    MODULES = ("permuta.patterns.perm", "permuta.patterns.patt")
+
+    def __init__(self):
+        import collections
+        import copy
+        import sys
+        self.kinds = (list, dict, set, collections.deque)
+        self.copy = copy.deepcopy
+        self.owners = []
+        for mname in self.MODULES:
+            mod = sys.modules.get(mname)
+            if mod is None:
+                continue
+            self.owners.append((mod, self._record(vars(mod))))
+            for v in list(vars(mod).values()):
+                if isinstance(v, type) and getattr(v, "__module__", None) == mname:
+                    self.owners.append((v, self._record(vars(v))))
+
+    def _record(self, d):
+        names = {}
+        for k, v in list(d.items()):
+            if k.startswith("__") and k.endswith("__"):
+                continue
+            snap = self.copy(v) if isinstance(v, self.kinds) else None
+            f = v.__func__ if isinstance(v, (classmethod, staticmethod)) else v
+            defaults = None
+            dflt = getattr(f, "__defaults__", None)
+            if dflt and any(isinstance(x, self.kinds) for x in dflt):
+                defaults = [(x, self.copy(x)) for x in dflt if isinstance(x, self.kinds)]
+            names[k] = (v, snap, f if hasattr(f, "cache_clear") else None, defaults)
+        return names
+
+    def _refill(self, live, snap):
+        if live == snap:
+            return
+        fresh = self.copy(snap)
+        if isinstance(live, list):
+            live[:] = fresh
+        elif isinstance(live, (dict, set)):
+            live.clear()
+            live.update(fresh)
+        else:
+            live.clear()
+            live.extend(fresh)
+
+    def restore(self):
+        for owner, names in self.owners:
+            cur = vars(owner)
+            for k in [k for k in cur if k not in names and not (k.startswith("__") and k.endswith("__"))]:
+                delattr(owner, k)
+            for k, (v, snap, cache, defaults) in names.items():
+                if cur.get(k) is not v:
+                    setattr(owner, k, v)
+                if snap is not None:
+                    self._refill(v, snap)
+                if cache is not None:
+                    cache.cache_clear()
+                if defaults:
+                    for live, s in defaults:
+                        self._refill(live, s)
+
+
+_PRISTINE = []       # [Pristine], taken in the parent before the workers are forked
+
+
+def pristine():
+    if not _PRISTINE:
+        _P()
+        _PRISTINE.append(Pristine())
+    return _PRISTINE[0]
+
+
+def check_abort(part, Perm, p, opname, form, only_k=None):
+    """form: 'new' = the operation runs on a new Perm(p); 'std' = on the memoised object handed
+    out by Perm.to_standard.  Returns the number of injection points."""
+    root, signal, restore = _abort_env()
+    key = [2 * v + 1 for v in p]
+    op = ABORT_OPS[opname]
+
+    def make():
+        pristine().restore()
+        return Perm(p) if form == "new" else Perm.to_standard(key)
+    try:
+        P0 = make()
+        _, total = _run_with_abort(lambda: op(P0), None, root)
+        for k in ([only_k] if only_k is not None else range(1, total + 1)):
+            case0 = {"perm": p, "abort_op": opname, "receiver": form, "abort_at_call": k}
+            P0 = make()
+            finished, _ = _run_with_abort(lambda: op(P0), k, root)
+            signal.alarm(20)
+            for route, recv in (("same object", lambda: P0), ("new object", lambda: Perm(p)),
+                                ("to_standard", lambda: Perm.to_standard(key))):
+                try:
+                    obs = unary_observations(Perm, p, None, False, RB_GROUPS, None, recv())
+                except Exception as exc:  # noqa
+                    part.violation("abort", dict(case0, read_back=route, op="build"),
+                                   {"exception": repr(exc)})
+                    continue
+                for _, o, thunk, exp in obs:
+                    observe(part, "abort", dict(case0, read_back=route, op=o), thunk, exp)
+            signal.alarm(0)
+            part.add(1, 0 if finished else 1)
+        return total
+    finally:
+        restore()
+
+
+def check_abort_inflate(part, Perm, p, comps, only_k=None):
+    root, signal, restore = _abort_env()
+    C = Conv(Perm)
+    exp = X.inflate(p, comps)
+    try:
+        def make():
+            pristine().restore()
+            return Perm(p), [None if c is None else Perm(c) for c in comps]
+        P0, real = make()
+        _, total = _run_with_abort(lambda: P0.inflate(real), None, root)
+        for k in ([only_k] if only_k is not None else range(1, total + 1)):
+            case0 = {"perm": p, "comps": list(comps), "abort_op": "inflate", "abort_at_call": k}
+            P0, real = make()
+            finished, _ = _run_with_abort(lambda: P0.inflate(real), k, root)
+            signal.alarm(20)
+            observe(part, "abort", dict(case0, op="inflate again: same objects, new objects"),
+                    lambda: [C.p(P0.inflate(real)), C.p(P0.inflate(iter(real))),
+                             C.p(Perm(p).inflate(inflate_argument("list", Perm, comps)))],
+                    [exp] * 3)
+            observe(part, "abort", dict(case0, op="inverse of the skeleton"),
+                    lambda: C.p(P0.inverse()), X.inverse(p))
+            for _, o, thunk, e in unary_observations(Perm, p, None, False, RB_GROUPS, None, P0):
+                observe(part, "abort", dict(case0, read_back="skeleton", op=o), thunk, e)
+            for j, (c0, obj) in enumerate(zip(comps, real)):
+                if obj is not None:
+                    for _, o, thunk, e in unary_observations(Perm, c0, None, False, ("decomp", "blocks"),
+                                                             None, obj):
+                        observe(part, "abort", dict(case0, read_back="component %d" % j, op=o),
+                                thunk, e)
+            signal.alarm(0)
+            part.add(1, 0 if finished else 1)
+        return total
+    finally:
+        restore()
+
+
+def shard_abort(shard):
+    Perm = _P()
+    part = Partial()
+    if shard[0] == "inflate":
+        _, p, alphabet = shard
+        for comps in itertools.product(alphabet, repeat=len(p)):
+            part.bump("abort_injection_points", check_abort_inflate(part, Perm, p, comps))
+    else:
+        _, p, opname = shard
+        for form in ("new", "std"):
+            part.bump("abort_injection_points", check_abort(part, Perm, p, opname, form))
     return part
 
 
@@ -696,8 +1057,13 @@ def check_shift(part, Perm, p, amax, amounts=None, pair_amounts=None, case0=None
     for op, exp in (("shift_right", X.shift_right(p, 1)), ("shift_left", X.shift_right(p, -1)),
                     ("shift_up", X.shift_up(p, 1)), ("shift_down", X.shift_up(p, -1))):
         observe(part, "shift", dict(case0, op=op + "()"), lambda op=op: C.p(getattr(P, op)()), exp)
+    for a in rng:
+        for op, exp in (("shift_right", X.shift_right(p, a)), ("shift_left", X.shift_right(p, -a)),
+                        ("shift_up", X.shift_up(p, a)), ("shift_down", X.shift_up(p, -a))):
+            observe(part, "shift", dict(case0, a=a, op=op + "(times=)"),
+                    lambda op=op: C.p(getattr(P, op)(times=fresh_int(a))), exp)
     nontriv = 0
-    cases = 6 * len(rng) + 4
+    cases = 10 * len(rng) + 4
     if ok_all:
         for a in prng:
             R, U = single[("shift_right", a)], single[("shift_up", a)]
@@ -751,6 +1117,7 @@ def check_compose_pair(part, Perm, p, q, laws=True):
     if not laws:
         return
     observe(part, "compose", dict(base, op="multiply"), lambda: C.p(P.multiply(Q)), exp)
+    observe(part, "compose", dict(base, op="p * q (operator)"), lambda: C.p(P * Q), exp)
     observe(part, "compose", dict(base, op="(pq)^-1=q^-1p^-1"),
             lambda: [C.p(P.compose(Q).inverse()), C.p(Q.inverse().compose(P.inverse()))],
             [X.inverse(exp)] * 2)
@@ -767,6 +1134,10 @@ def check_compose_single(part, Perm, p):
             lambda: [C.p(P.compose(Perm.identity(n))), C.p(Perm.identity(n).compose(P))], [p, p])
     observe(part, "compose", dict(base, op="p*p^-1,p^-1*p"),
             lambda: [C.p(P.compose(P.inverse())), C.p(P.inverse().compose(P))], [ident, ident])
+    # the very same object on both sides / several times among the arguments
+    observe(part, "compose", dict(base, op="same object: p.compose(p), p*p, p.compose(p,p)"),
+            lambda: [C.p(P.compose(P)), C.p(P * P), C.p(P.compose(P, P))],
+            [X.compose(p, p), X.compose(p, p), X.compose(p, p, p)])
 
 
 def check_compose_triple(part, Perm, p, q, r):
@@ -787,7 +1158,7 @@ def shard_compose(shard):
     for p in level[lo:hi]:
         if kind == "pairs":
             check_compose_single(part, Perm, p)
-            part.add(3, 1 if p != ident else 0)
+            part.add(4, 1 if p != ident else 0)
             for q in level:
                 check_compose_pair(part, Perm, p, q, laws)
                 part.add(1, 1 if (p != ident and q != ident and X.compose(p, q) != ident) else 0)
@@ -823,6 +1194,15 @@ def check_sums(part, Perm, comps):
                 acc = getattr(acc, op)(c)
             return C.p(acc)
         observe(part, "sums", dict(base, op=op), variadic, exp)
+        # equal components handed over as ONE object (also as the receiver itself)
+        shared = {}
+        al = [shared.setdefault(c, Perm(c)) for c in comps]
+        observe(part, "sums", dict(base, op=op + ":equal components are the same object"),
+                lambda op=op: C.p(getattr(al[0], op)(*al[1:])), exp)
+        if len(cs) == 2:
+            sym = {"direct_sum": "+", "skew_sum": "-"}[op]
+            observe(part, "sums", dict(base, op="a %s b (operator)" % sym),
+                    lambda op=op: C.p(cs[0] + cs[1] if op == "direct_sum" else cs[0] - cs[1]), exp)
         if len(cs) > 2:
             observe(part, "sums", dict(base, op=op + ":nested"), nested, exp)
             observe(part, "sums", dict(base, op=op + ":right_nested"),
@@ -852,15 +1232,50 @@ def shard_sums(shard):
 # inflation
 # --------------------------------------------------------------------------------------------
 
+INFLATE_FORMS = ("list", "tuple", "iter(list)", "generator expression", "map object", "deque",
+                 "dict values", "list with equal components as the same object")
+
+
+def inflate_argument(form, Perm, comps):
+    """The component list `comps` (tuples / None) as the argument object of the named form."""
+    import collections
+    real = [None if c is None else Perm(c) for c in comps]
+    if form == "list":
+        return real
+    if form == "tuple":
+        return tuple(real)
+    if form == "iter(list)":
+        return iter(real)
+    if form == "generator expression":
+        return (x for x in real)
+    if form == "map object":
+        return map(lambda x: x, real)
+    if form == "deque":
+        return collections.deque(real)
+    if form == "dict values":
+        return dict(enumerate(real)).values()
+    if form == "list with equal components as the same object":
+        shared = {}
+        return [None if c is None else shared.setdefault(c, Perm(c)) for c in comps]
+    raise ValueError(form)
+
+
 def check_inflate(part, Perm, p, comps):
+    """Every argument form up to skeleton length 4; three of them (a sequence, a one-shot
+    iterator, a sized non-sequence) at length 5."""
     C = Conv(Perm)
     P = Perm(p)
     exp = X.inflate(p, comps)
-    real = [None if c is None else Perm(c) for c in comps]
     base = {"perm": p, "comps": list(comps)}
-    observe(part, "inflate", dict(base, op="inflate(list)"), lambda: C.p(P.inflate(real)), exp)
-    observe(part, "inflate", dict(base, op="inflate(iterator)"),
-            lambda: C.p(P.inflate(iter(real))), exp)
+    for form in (INFLATE_FORMS if len(p) <= 4 else ("list", "iter(list)", "dict values")):
+        observe(part, "inflate", dict(base, op="inflate(%s)" % form),
+                lambda: C.p(P.inflate(inflate_argument(form, Perm, comps))), exp)
+    if comps and all(c == p for c in comps):
+        # the receiver itself as every component
+        observe(part, "inflate", dict(base, op="inflate([self] * n)"),
+                lambda: C.p(P.inflate([P] * len(p))), exp)
+    observe(part, "inflate", dict(base, op="inflate(components=list)"),
+            lambda: C.p(P.inflate(components=inflate_argument("list", Perm, comps))), exp)
 
 
 def shard_inflate(shard):
@@ -907,7 +1322,9 @@ def run(ctx, only=None):
 
     quick = ctx.quick
     Perm = _P()
-    ctx.rule = ("scale: observations on shapes of length >= 258 (insert / shift cases inside it by "
+    pristine()          # import-time state, before any worker exists or any operation has run
+    ctx.rule = ("receivers: observations on non-monotone perms of length >= 3; abort: executions in "
+                "which the injected exception was actually raised; scale: observations on shapes of length >= 258 (insert / shift cases inside it by "
                 "their own rule); unary, long: permutations of length >= 3 that are not monotone; inflations: distinct "
                 "members of length >= 9; duality: length >= 2; "
                 "insert: 0 < index < n and 0 < value < n; shift: law instances with n >= 3 and neither "
@@ -955,9 +1372,9 @@ def run(ctx, only=None):
             "second_call_perm_length": "0..%d" % FRESH_MAX}
         ctx.section("unary", perms=ctx.evals - e0)
 
-    # ---- block-structured permutations of length up to 11 / 13 --------------------------------
+    # ---- block-structured permutations of length up to 10 / 13 --------------------------------
     if want("inflations"):
-        maxlen = 11 if quick else 13
+        maxlen = 10 if quick else 13
         fam, nskel, ncomp = inflation_family(maxlen)
         _FAMILY[:] = fam
         e0 = ctx.evals
@@ -1018,6 +1435,50 @@ def run(ctx, only=None):
             "arguments": "every index / value / amount is passed as int(str(k)), not as the int "
                          "object stored in the permutation"}
         ctx.section("scale", shapes=len(shards), cases=ctx.evals - e0)
+
+    # ---- forms of the receiver ----------------------------------------------------------------
+    if want("receivers"):
+        nmax = 5 if quick else 6
+        per = {0: 1, 1: 1, 2: 2, 3: 6, 4: 6, 5: 8, 6: 24}
+        e0 = ctx.evals
+        ctx.pmap(shard_receivers, [(n, lo, hi) for n in range(0, nmax + 1)
+                                   for lo, hi in chunks(n, per[n])])
+        ctx.bounds["receivers"] = {"perm_length": "0..%d" % nmax, "routes": list(RECEIVER_FORMS),
+                                   "observers": "all unary observers except coveredby"}
+        ctx.section("receivers", observations=ctx.evals - e0)
+
+    # ---- abort ----------------------------------------------------------------------------------
+    if want("abort"):
+        pool = upto(4) + [(1, 4, 2, 0, 3), (1, 2, 4, 0, 3)]
+        if not quick:
+            pool += upto(5) + X.simples(6)[:4] + X.simples(7)[:2]
+        pool = sorted(set(pool), key=lambda p: (len(p), p))
+        shards = [("op", p, op) for p in pool for op in ABORT_OPS]
+        alphabet = [None, (), (1, 0), (0, 2, 1)]
+        skeletons = upto(3) if quick else upto(3) + [(1, 3, 0, 2), (0, 1, 2, 3)]
+        shards += [("inflate", p, alphabet) for p in skeletons]
+        e0, c0 = ctx.evals, ctx.counters.get("abort_injection_points", 0)
+        ctx.pmap(shard_abort, shards)
+        ctx.bounds["abort"] = {
+            "operations": sorted(ABORT_OPS) + ["inflate"],
+            "perms": "every perm of length <= %d and %d longer ones (length <= %d); on a new "
+                     "object and on the memoised Perm.to_standard object" % (
+                         4 if quick else 5, sum(1 for p in pool if len(p) > (4 if quick else 5)),
+                         max(len(p) for p in pool)),
+            "inflate": "skeletons %s, every component list over %r" % (
+                "S<=3" if quick else "S<=3, 2413, 0123", alphabet),
+            "state": "module / class bindings and containers of %s, lru_caches and mutable default "
+                     "arguments are put back to their import-time content before every execution"
+                     % (Pristine.MODULES,),
+            "injection": "_Abort(BaseException) at EVERY 'call' event inside <repo>/permuta during the "
+                         "operation, one per execution",
+            "read_back": "decomp, blocks, mono, children observers on the same object, a new equal "
+                         "object and the to_standard object (inflate: inflate again with the same "
+                         "and with new objects, inverse of the skeleton, observers on skeleton and "
+                         "components); 20 s alarm",
+            "injection_points": ctx.counters.get("abort_injection_points", 0) - c0}
+        ctx.section("abort", executions=ctx.evals - e0,
+                    injection_points=ctx.counters.get("abort_injection_points", 0) - c0)
 
     # ---- duality ---------------------------------------------------------------------------
     if want("duality"):
@@ -1117,10 +1578,19 @@ def _tt(x):
 
 def replay(ctx, rec):
     Perm = _P()
+    pristine()
     sub, case = rec["sub"], rec["case"]
     sink = Collect()
     if "shape" in case:
         check_scale(sink, Perm, tuple(case["shape"]), True)
+    elif case.get("abort_op") == "inflate":
+        check_abort_inflate(sink, Perm, _tt(case["perm"]), [_tt(x) for x in case["comps"]],
+                            only_k=case["abort_at_call"])
+    elif "abort_op" in case:
+        check_abort(sink, Perm, _tt(case["perm"]), case["abort_op"], case["receiver"],
+                    only_k=case["abort_at_call"])
+    elif "receiver" in case:
+        check_receivers(sink, Perm, _tt(case["perm"]))
     elif sub in ("decomp", "blocks", "mono", "children", "covers", "remove", "fresh"):
         p = _tt(case["perm"])
         after = _tt(case.get("after"))
